@@ -208,6 +208,20 @@ impl Check for C02
 	{
 		false
 	}
+	fn judge_source(&self, stream: &str, files: &[(String, String)], _ctx: &RunCtx) -> Option<CaseOut>
+	{
+		if stream == "known-defect-probes"
+		{
+			return None;
+		}
+		let mut out = CaseOut::default();
+		if !files.is_empty()
+		{
+			let case = Case { files: files.to_vec(), kind: "source", planted_at: None };
+			judge(&case, &mut out, false);
+		}
+		Some(out)
+	}
 	fn rule(&self) -> String
 	{
 		"valid UTF-8 sources <= 64 KiB, nesting <= 256: (a) repository corpus files (357) pristine, byte-mutated or with 1-3 token edits (delete, duplicate, swap, replace by / insert a random Penne token, stray bracket); (b) generated well-typed programs in plain or random layout with 1-3 token edits; (c) token soup over 67 Penne tokens, bare, inside a function body or in expression position; (d) EVERY token sequence of length <= 3 (quick) / <= 4 (thorough) over a 24-token alphabet in three templates (top level, function body, initialiser expression) — exhaustive; (e) sets of 2-3 modules drawn from the other streams with imports of each other, of themselves and of a missing file, compiled through one Compiler in the order of src/main.rs. Oracle: the whole pipeline lex..generate_ir..link in an isolated worker ends in success with IR or in failure with >= 1 diagnostic; a panic, LLVM abort, stack overflow, segfault (by site), an Err(anyhow) from the generator, or an empty error list is a failure. Non-trivial: the input got past lexing and parsing (failure, if any, is semantic), or it is a module set; distinct by source.".into()
